@@ -6,6 +6,7 @@
 //   redirect_check_table : commands accepted by mod_redirect.ActionFileCheck with parameter count
 //   doc_rewrite / doc_header / doc_redirect : commands listed in the "### Actions" table of docs/en_us/modules/<mod>/<mod>.md
 //                          (doc_header with the number of documented parameters)
+//   doc_variables        : variable names (without %) of the "Builtin Variables" table of mod_header.md
 //   action_header_prefix : bfe_basic/action.HeaderPrefix
 // Fails (non-zero exit) if the source no longer has the expected shape.
 package main
@@ -281,6 +282,38 @@ func docTable(path string) []entry {
 	return out
 }
 
+// names listed as `| %name | ... |` in the table that follows the heading "Builtin Variables"
+func docVariables(path string) []entry {
+	f, err := os.Open(path)
+	if err != nil {
+		die("%v", err)
+	}
+	defer f.Close()
+	var out []entry
+	sc := bufio.NewScanner(f)
+	in := false
+	for sc.Scan() {
+		ln := strings.TrimSpace(sc.Text())
+		if strings.HasPrefix(ln, "#") {
+			in = strings.Contains(ln, "Builtin Variables")
+			continue
+		}
+		if !in || !strings.HasPrefix(ln, "|") {
+			continue
+		}
+		cols := strings.Split(strings.Trim(ln, "|"), "|")
+		name := strings.TrimSpace(cols[0])
+		if !strings.HasPrefix(name, "%") {
+			continue
+		}
+		out = append(out, entry{name[1:], 0})
+	}
+	if len(out) == 0 {
+		die("%s: no variable table", path)
+	}
+	return out
+}
+
 func bytesLit(s string) string {
 	var sb strings.Builder
 	sb.WriteString("[")
@@ -366,6 +399,7 @@ func main() {
 	docRewrite := docTable(filepath.Join(docs, "mod_rewrite/mod_rewrite.md"))
 	docHeader := docTable(filepath.Join(docs, "mod_header/mod_header.md"))
 	docRedirect := docTable(filepath.Join(docs, "mod_redirect/mod_redirect.md"))
+	docVars := docVariables(filepath.Join(docs, "mod_header/mod_header.md"))
 
 	var sb strings.Builder
 	sb.WriteString("(* GENERATED by tools/xlate/actions from bfe_basic/action/action.go, bfe_modules/mod_{rewrite,header,redirect}/action.go\n")
@@ -380,6 +414,7 @@ func main() {
 	emitTable(&sb, "doc_rewrite", docRewrite, false)
 	emitTable(&sb, "doc_header", docHeader, true)
 	emitTable(&sb, "doc_redirect", docRedirect, false)
+	emitTable(&sb, "doc_variables", docVars, false)
 	p := filepath.Join(*out, "Actions.v")
 	old, _ := os.ReadFile(p)
 	if string(old) != sb.String() {
